@@ -122,6 +122,9 @@ def nativePure (name : String) (self : Value N) (args : List (Value N)) (st : St
   let a1 := args.tail.headD .empty
   let un (w : String) : Option (NRes N) := some (.error (.unmodelled w), st)
   let need (n : Nat) (k : Option (NRes N)) : Option (NRes N) := if args.length < n then some (.error tooFew, st) else k
+  let strArgNatives := ["Dictionary#set", "Dictionary#get", "Dictionary#remove", "Dictionary#contains", "String#contains",
+    "String#split", "String#find", "String#replace", "System#string"]
+  if strArgNatives.contains name && (a0.toStr?.isNone || (name == "String#replace" && a1.toStr?.isNone)) then un "container to string" else
   match name with
   -- ---------------------------------------------------------------- Array (array-script.cpp)
   | "Array#len" => match self with
@@ -249,7 +252,7 @@ def nativePure (name : String) (self : Value N) (args : List (Value N)) (st : St
     | .dict a => (st.dict? a).map fun kvs => (.ok (numOfNat kvs.length), st)
     | .str s => some (.ok (numOfNat s.length), st)
     | _ => some (.ok (numOfNat 0), st)
-  | "System#typeof" => need 1 <| some (.ok (.typ a0.ty.name), st)
+  | "System#typeof" => need 1 <| some (.ok (.typ (match a0 with | .empty => "Object" | v => v.ty.name)), st)   -- Empty reflects as Object
   | "System#string" => need 1 <| some (.ok (.str a0.toStr), st)
   | "System#bool" => need 1 <| some (.ok (.bool (truthy st a0)), st)
   | "System#number" => need 1 <| match a0 with
